@@ -260,7 +260,7 @@ def signed_spend_verdict(form, d, prefix, pos, off, tail, honest, lie, aux, vers
     return got, honest
 
 
-@contract("contracts.c_engine.signed_spend_verdict", gen=_gen_signed, props="C08", n_quick=250, n_thorough=6000,
+@contract("contracts.c_engine.signed_spend_verdict", gen=_gen_signed, props="C08", n_quick=250, n_thorough=3000,
           rule="single-key CHECKSIG / CHECKSIGVERIFY / CHECKSIGADD spends (tapscript leaf, P2WSH, bare) whose script has 0..5 prefix segments with executed, unexecuted and OP_IF-nested OP_CODESEPARATORs and contracted *VERIFY opcodes; signature by the reference signer over the reference BIP341/BIP143/legacy digest of either the real script code / code-separator position or a wrong one; all sighash types")
 class SignedSpendBounded:
     """accepted exactly when the signature commits to the script code (legacy, BIP143: the script
@@ -374,7 +374,7 @@ def sig_encoding_verdict(form, sig_kind, key_kind, negate, op0_prefix, d, flags)
         return False, sig
 
 
-@contract("contracts.c_engine.sig_encoding_verdict", gen=_gen_sigenc, props="C08 C04", both_arms=True, n_quick=600, n_thorough=20000,
+@contract("contracts.c_engine.sig_encoding_verdict", gen=_gen_sigenc, props="C08 C04", both_arms=True, n_quick=600, n_thorough=5000,
           rule="<key> CHECKSIG [NOT] (optionally behind OP_0 DROP) bare and P2WSH x signatures {valid, empty, wrong key, high-s, lax DER, hash type 0 / 4 / 0x80, garbage} x keys {compressed, uncompressed, hybrid, malformed} x every subset of DERSIG, STRICTENC, LOW_S, NULLFAIL, WITNESS_PUBKEYTYPE, CONST_SCRIPTCODE")
 class SigEncodingBounded:
     """Core's EvalChecksigPreTapscript: FindAndDelete (an error under CONST_SCRIPTCODE when it
@@ -472,7 +472,7 @@ def multisig_verdict(form, keys, sigs, negate, op0_prefix, dummy, d, flags):
         return False, sig_bytes
 
 
-@contract("contracts.c_engine.multisig_verdict", gen=_gen_multisig, props="C08 C04", both_arms=True, n_quick=500, n_thorough=20000,
+@contract("contracts.c_engine.multisig_verdict", gen=_gen_multisig, props="C08 C04", both_arms=True, n_quick=500, n_thorough=4000,
           rule="m-of-n CHECKMULTISIG [NOT] (n <= 3, optionally behind OP_0 DROP) bare and P2WSH x per-signature kinds {valid, empty, wrong key, high-s, lax DER, hash type 0, garbage} in and out of key order x per-key kinds {compressed, uncompressed, hybrid, malformed} x empty / non-empty dummy x every subset of DERSIG, STRICTENC, LOW_S, NULLFAIL, WITNESS_PUBKEYTYPE, CONST_SCRIPTCODE, NULLDUMMY")
 class MultisigBounded:
     """Core's OP_CHECKMULTISIG arm: FindAndDelete of every signature push first (an error under
